@@ -11,7 +11,7 @@ CLAIMED["C03"] = ("DESIGN.md#c03", "Lean theorems: add of fixed-length units = f
          "Lean 4 proof over zone-table + add_duration model, differential correspondence run")
 CLAIMED["C01"] = ("DESIGN.md#c01", "Lean theorems for every well-formed zone table: conversion preserves the instant, fields/offset are the table's rendering, A->B->C = A->C, int_timestamp inverts from_timestamp, instance() keeps the instant; correspondence of in_tz/in_timezone/astimezone/convert/from_timestamp/instance (5 tzinfo kinds) against the model around transitions of every zone, both backends; oracle = integer instants from the tz table",
          "Lean 4 proof over zone-table model + differential correspondence run")
-CLAIMED["C09"] = ("DESIGN.md#c09", "Lean theorems over the exact-microsecond model of Duration.__new__/components/in_*()/AbsoluteDuration (all integer argument tuples, unbounded); correspondence model<->code: exact model on the float-exact range, float-faithful model beyond it; oracle = native timedelta + integer split",
+CLAIMED["C09"] = ("DESIGN.md#c09", "Lean theorems over the exact-microsecond model of Duration.__new__/components/in_*()/AbsoluteDuration (all integer argument tuples, unbounded); correspondence model<->code on the whole input range (the normalisation is integer arithmetic since the exactness fix); oracle = native timedelta + integer split",
          "Lean 4 proof of the integer model + hand model tied by differential run (float bridge stated as assumption)")
 CLAIMED["C13"] = ("DESIGN.md#c13", "Lean theorems over a model of both duration parsers (Rust state machine, Python regex groups + per-group code) on token lists of arbitrary digit strings: exact value rounded to the nearest microsecond, backends agree on every well-formed string, order/fraction/size rejections, interval assembly over abstract add/sub; correspondence on ~10^5 strings x 2 backends; oracle = fractions.Fraction",
          "Lean 4 proof over parser models + differential correspondence run")
@@ -39,7 +39,7 @@ CLAIMED["C06"] = ("DESIGN.md#c06", "Lean theorems over models of both precise_di
          "Lean 4 proof over precise_diff/add_duration models + differential correspondence run")
 CLAIMED["C19"] = ("DESIGN.md#c19", "Lean theorems about the range loop for any step/comparison: k-th value computed from the start (no drift), containment, strict monotonicity, stops at the last value not beyond the end, end yielded iff reachable, finite with an explicit bound, contains_iff; unconditional instantiation for naive values, partial for DST zones outside the known findings F15/F16 (Lean counterexamples); correspondence 8x10^4 comparisons, oracle = independent list of start.add(unit=k*n) cut by instants; F24 (range end at the representable limit)",
          "Lean 4 proof over range-loop model + differential correspondence run")
-CLAIMED["C10"] = ("DESIGN.md#c10", "Lean theorems: every Duration operator (neg, abs, +, -, * int/float, / int/float, // int, // / % divmod by a duration or plain timedelta) equals the integer semantics of the native timedelta operator (floor division/modulo, round-half-even proved for divisors of either sign), neg/* int component-wise on years/months, result-type table, comparison/hash read the native slots; correspondence (exact model on the float-exact range, float-faithful model beyond); oracle = the same operator on native timedeltas; known findings F17/F18 (float pipeline beyond 2^31/2^33 s)",
+CLAIMED["C10"] = ("DESIGN.md#c10", "Lean theorems: every Duration operator (neg, abs, +, -, * int/float, / int/float, // int, // / % divmod by a duration or plain timedelta) equals the integer semantics of the native timedelta operator (floor division/modulo, round-half-even proved for divisors of either sign), neg/* int component-wise on years/months, result-type table, comparison/hash read the native slots; correspondence on the whole input range; oracle = the same operator on native timedeltas (former findings F17/F18 fixed)",
          "Lean 4 proof over exact-microsecond Duration model + differential correspondence run")
 NA = {}
 def main():
